@@ -30,6 +30,7 @@ package ast
 //@   ensures[equal] node.op == BinaryOpEQ ==> result == (nodeSem(node.left, st(s)) == nodeSem(node.right, st(s)))
 //@   ensures[not-equal] node.op == BinaryOpNEQ ==> result == (nodeSem(node.left, st(s)) != nodeSem(node.right, st(s)))
 //@   ensures[other-operators-false] node.op != BinaryOpEQ && node.op != BinaryOpNEQ ==> !result
+//@   ensures[null-symbol-operand] istype(node.left, *BoolSymbolNode) && ybNull(s, st(s), as(node.left, *BoolSymbolNode).symbol) && !(istype(node.right, *BoolSymbolNode) && ybNull(s, st(s), as(node.right, *BoolSymbolNode).symbol)) ==> result == (node.op == BinaryOpNEQ)
 
 // ---- typed comparisons: a null operand makes every comparison false, except != which is then true exactly when
 // the other operand is not null ----
